@@ -183,6 +183,15 @@ func shapes() []shape {
 			ks := peersOf(pick(rng, sc.n, rng.Range(sc.q, sc.n)))
 			return ks, valid(ks[:rng.Range(1, sc.q-1)])
 		}},
+		{"two-thirds-listed-one-sig-repeated", func(rng *vf.RNG, sc *sideChain) ([]keyRef, []sigRef) {
+			ks := peersOf(pick(rng, sc.n, rng.Range(sc.q, sc.n)))
+			a := ks[rng.Intn(len(ks))]
+			var sg []sigRef
+			for range ks {
+				sg = append(sg, sigRef{Kind: 'v', Who: a})
+			}
+			return ks, sg
+		}},
 		{"two-thirds-listed-few-sign-padded", func(rng *vf.RNG, sc *sideChain) ([]keyRef, []sigRef) {
 			ks := peersOf(pick(rng, sc.n, rng.Range(sc.q, sc.n)))
 			s := rng.Range(1, sc.q-1)
@@ -256,9 +265,9 @@ func shapes() []shape {
 			var ks []keyRef
 			for j := rng.Range(0, sc.n+3); j > 0; j-- {
 				switch {
-				case rng.Chance(8):
+				case rng.Chance(4):
 					ks = append(ks, keyRef{Out: true, I: rng.Intn(len(sc.outs))})
-				case len(ks) > 0 && rng.Chance(35):
+				case len(ks) > 0 && rng.Chance(10):
 					ks = append(ks, ks[rng.Intn(len(ks))])
 				default:
 					ks = append(ks, keyRef{I: rng.Intn(sc.n)})
@@ -266,12 +275,12 @@ func shapes() []shape {
 			}
 			var sg []sigRef
 			for i := range ks { // mostly position-aligned signatures, some disturbed
-				switch k := rng.Intn(12); {
-				case k < 9:
+				switch k := rng.Intn(40); {
+				case k < 37:
 					sg = append(sg, sigRef{Kind: 'v', Who: ks[i]})
-				case k < 10:
+				case k < 38:
 					sg = append(sg, sigRef{Kind: 'x', Who: ks[i]})
-				case k < 11:
+				case k < 39:
 					sg = append(sg, garbage(rng))
 				}
 			}
@@ -509,7 +518,7 @@ func txState(c *chain.Chain, tx *types.Transaction) int {
 
 func main() {
 	r := vf.NewRun("C33", "exploration",
-		"solo ledger; per side chain (n in {4,7,10} generated peers, several chains per n) a syncGenesisHeader tx signed by the operator, then one syncBlockHeader invoke tx per case carrying one forged header at its own height with Bookkeepers/SigData from 17 list shapes (honest, permuted, surplus sigs, below 2/3, one peer repeated k>=2n/3 times with repeated or fresh signatures, A,B + duplicates, few + duplicates, 2/3 distinct + duplicates, listed but few signing, padded, non-peers listed/padding/signing, other hash, garbage, empty, random mix); acceptance read from the committed header index; distinct by (n, shape, key list, signature list)")
+		"solo ledger; per side chain (n in {4,7,10} generated peers, several chains per n) a syncGenesisHeader tx signed by the operator, then one syncBlockHeader invoke tx per case carrying one forged header at its own height with Bookkeepers/SigData from 18 list shapes (honest, permuted, surplus sigs, below 2/3, one peer repeated k>=2n/3 times with repeated or fresh signatures, A,B + duplicates, few + duplicates, 2/3 distinct + duplicates, listed but few signing, one signature repeated, padded, non-peers listed/padding/signing, other hash, garbage, empty, random mix); acceptance read from the committed header index; distinct by (n, shape, key list, signature list)")
 	scratch := vf.Scratch("c33")
 	defer os.RemoveAll(scratch)
 	rng := vf.NewRNG(vf.Seed())
